@@ -58,6 +58,10 @@ int c19_cycle(int mode, int format, const char *name, bool opt_c, bool opt_f, bo
 		int *stage, char **dest_name_out);
 void c19_probe_files(FILE *f, const char *scratch_dir);
 
+// ---- c19_args.c (real args.c)
+int c19_args_code(int prog, int env, int o1, int o2);
+void c19_probe_args(FILE *f);
+
 // ---- c19_exit.c (real main.c)
 void c19_exit_reset(void);
 int c19_exit_get(void);
